@@ -1,5 +1,6 @@
 CONSTANTS
   MaxDepth = 3
+  ExtraKinds = {}
   MaxEntries = 2
 SPECIFICATION Spec
 INVARIANTS CleanMatchesExpected Idempotent UserFilesUntouched Export
